@@ -7,8 +7,11 @@ Stream `cache`: random acyclic generator programs (fresh / handing-on bodies, ne
           repeated keys in both call forms: identity of returned modules, body-run log, module names vs the Lean `run`.
 Stream `scalar`: Scalar-valued fields: Literals spelling the very text a number is named by.
 Stream `uncached`: `enable_cache=False` generators: equal calls, customised results, one design.
-Stream `shapes`: nested param-classes, enum, Prefixed, Module- and Generator-valued fields (md5-of-JSON form): equal
+Stream `shapes`: nested param-classes, enum, Prefixed, Module-valued fields (md5-of-JSON form): equal
           params <=> equal names, exported together in one package.
+Stream `hashed`: generated shapes for the md5-of-JSON form: optional fields at falsy values against None, (Int)Enums, tuples,
+          nested param-classes, Prefixed, Generator- / ExternalModule- / Module-valued fields holding same-named things of
+          two Python modules; all pairs of 7 neighbouring values; exported together.
 """
 import itertools
 import json
@@ -478,6 +481,156 @@ def collections_check(ctx):
             rep.fail("pred", {"stream": "collections", "shape": nm}, f"different {nm}-valued parameters share a module or a name: {a.name!r} / {c.name!r}", "names")
 
 
+LIB_SRC = """
+import hdl21 as h
+
+@h.paramclass
+class CellParams:
+    w = h.Param(dtype=int, desc="w", default=1)
+
+@h.generator
+def Cell(p: CellParams) -> h.Module:
+    m = h.Module()
+    m.a = h.Input()
+    {extra}
+    return m
+
+Ext = h.ExternalModule(name="Ext", port_list=[h.Port(name="a")], desc="{lib}")
+Mod = h.Module(name="Mod")
+"""
+
+
+def two_libs():
+    """two Python modules, each with a generator `Cell`, an external module `Ext` and a module `Mod`: same names, different things"""
+    import importlib, os, sys, tempfile
+
+    if "c09_liba" in sys.modules:
+        return sys.modules["c09_liba"], sys.modules["c09_libb"]
+    import atexit, shutil
+    d = tempfile.mkdtemp(prefix="c09libs")
+    atexit.register(shutil.rmtree, d, True)
+    for lib, extra in (("c09_liba", "pass"), ("c09_libb", "m.b = h.Input()")):
+        with open(os.path.join(d, lib + ".py"), "w") as f:
+            f.write(LIB_SRC.format(extra=extra, lib=lib))
+    sys.path.insert(0, d)
+    try:
+        return importlib.import_module("c09_liba"), importlib.import_module("c09_libb")
+    finally:
+        sys.path.remove(d)
+
+
+def hashed_check(ctx):
+    """The md5-of-JSON form over generated shapes: optional fields at falsy values against None, enums (also IntEnum members of
+    value 0), tuples, nested param-classes, Prefixed, and Generator- / ExternalModule- / Module-valued fields holding same-named
+    things of two Python modules.  All pairs of 7 values per shape: equal parameters <=> the identical module <=> one name; the
+    distinct modules of a shape are exported together."""
+    from enum import IntEnum
+    from typing import Tuple
+
+    rep, rng = ctx.rep, ctx.rng
+    la, lb = two_libs()
+
+    class Corner(Enum):
+        TT = "tt"
+        FF = "ff"
+        NONE = ""
+
+    class Mode(IntEnum):
+        OFF = 0
+        ON = 1
+
+    @h.paramclass
+    class Sub:
+        gain = h.Param(dtype=Optional[float], desc="gain", default=None)
+        tag = h.Param(dtype=Optional[str], desc="tag", default=None)
+        n = h.Param(dtype=int, desc="n", default=0)
+
+    from decimal import Decimal as D
+
+    # more digits than the default decimal context keeps (28): unequal in the last one; and one of them written differently
+    LONG = [h.Prefixed(number=D("123456789.00000000000000000001"), prefix=h.prefix.K), h.Prefixed(number=D("123456789.00000000000000000002"), prefix=h.prefix.K),
+            h.Prefixed(number=D("123456789000.0000000000000000100"), prefix=h.prefix.UNIT),
+            h.Prefixed(number=D("2" + "0" * 38 + "1"), prefix=h.prefix.m), h.Prefixed(number=D("2" + "0" * 38 + "3"), prefix=h.prefix.m)]
+    pools = {
+        "oint": (Optional[int], [None, 0, 1, -1, 2]),
+        "obool": (Optional[bool], [None, False, True]),
+        "ofloat": (Optional[float], [None, 0.0, 0.5, 1.0]),
+        "ostr": (Optional[str], [None, "", "None", "null", "0", "x"]),
+        "corner": (Corner, [Corner.TT, Corner.FF, Corner.NONE]),
+        "ocorner": (Optional[Corner], [None, Corner.TT, Corner.NONE]),
+        "omode": (Optional[Mode], [None, Mode.OFF, Mode.ON]),
+        "otup": (Optional[Tuple[int, ...]], [None, (), (0,), (0, 0), (1, 2), (2, 1)]),
+        "tupstr": (Tuple[str, ...], [(), ("",), ("a", "b"), ("a,b",), ("a", "b", "")]),
+        "sub": (Sub, [Sub(), Sub(gain=0.0), Sub(tag=""), Sub(n=1), Sub(gain=0.0, tag=""), Sub(tag="None")]),
+        "osub": (Optional[Sub], [None, Sub(), Sub(gain=0.0)]),
+        "pre": (h.Prefixed, [0 * h.prefix.m, 1 * h.prefix.m, 1000 * h.prefix.µ, h.Prefixed.new(1)] + LONG),
+        "opre": (Optional[h.Prefixed], [None, h.Prefixed.new(0), 1 * h.prefix.K, 1000 * h.prefix.UNIT]),
+        "gen": (h.Generator, [la.Cell, lb.Cell]),
+        "ogen": (Optional[h.Generator], [None, la.Cell, lb.Cell]),
+        "ext": (h.ExternalModule, [la.Ext, lb.Ext]),
+        "inst": (h.Instantiable, [la.Mod, lb.Mod, la.Cell(w=1), lb.Cell(w=1), la.Cell(w=2)]),
+    }
+    hashers = ["corner", "ocorner", "omode", "otup", "tupstr", "sub", "osub", "pre", "opre", "gen", "ogen", "ext", "inst"]
+    nshapes = 40 if ctx.quick else 800
+    stats = {"pairs": 0, "equal_pairs": 0, "exported": 0}
+    singles = list(pools)  # corpus: every kind alone (next to a tuple, which forces the hashed form), with all its values
+    for t in range(len(singles) + nshapes):
+        if t < len(singles):
+            kinds = [singles[t], "otup"]
+        else:
+            kinds = [rng.choice(hashers)] + rng.sample(list(pools), rng.randint(0, 3))
+            rng.shuffle(kinds)
+        fields = [(f"f{i}", k) for i, k in enumerate(kinds)]
+        P = h.paramclass(type("HP", (), {nm: h.Param(dtype=pools[k][0], desc=nm) for nm, k in fields}))
+
+        def body(p: P) -> h.Module:
+            return h.Module()
+
+        body.__name__ = f"H{t}"
+        G = h.generator(body)
+        vals = []
+        base = {nm: rng.choice(pools[k][1]) for nm, k in fields}
+        for _ in range(7):
+            v = dict(base)
+            for nm, k in rng.sample(fields, rng.randint(0, min(2, len(fields)))):  # neighbours: differ in one or two fields
+                v[nm] = rng.choice(pools[k][1])
+            vals.append(v)
+        if t < len(singles):
+            vals = [{"f0": x, "f1": None} for x in pools[singles[t]][1]] + [{"f0": pools[singles[t]][1][0], "f1": ()}]
+        case = {"stream": "hashed", "fields": fields, "values": [{k: repr(x) for k, x in v.items()} for v in vals]}
+        rep.count("hashed", json.dumps(case, default=str))
+        try:
+            ps = [P(**v) for v in vals]
+            mods = [G(p) if k % 2 else G(**v) for k, (p, v) in enumerate(zip(ps, vals))]
+        except Exception as ex:  # noqa
+            rep.fail("pred", case, f"a valid generator call raised {type(ex).__name__}: {str(ex)[:200]}", "call-raised")
+            continue
+        bad = False
+        for i in range(len(vals)):
+            for j in range(i):
+                stats["pairs"] += 1
+                same = ps[i] == ps[j]
+                stats["equal_pairs"] += same
+                if same != (mods[i] is mods[j]) or (mods[i] is mods[j]) != (mods[i].name == mods[j].name):
+                    rep.fail("pred", dict(case, pair=[case["values"][i], case["values"][j]]),
+                             f"equal={same} same module={mods[i] is mods[j]} names {mods[i].name} / {mods[j].name}", "names")
+                    bad = True
+                    break
+            if bad:
+                break
+        if bad:
+            continue
+        top = h.Module(name=f"HTop{t}")
+        for k, m in enumerate(dict.fromkeys(mods)):
+            top.add(m(), name=f"i{k}")
+        try:
+            h.to_proto(top)
+            stats["exported"] += 1
+        except Exception as ex:  # noqa
+            rep.fail("pred", case, f"modules generated from different values cannot be exported together: {str(ex)[:200]}", "names")
+    rep.extra["hashed_stats"] = stats
+
+
 def collision_search(ctx):
     """Failing-input search for the readable name: every pair of strings over a small adversarial alphabet
     (up to length 4) as the two str fields of one param class; group by name; a name shared by two different
@@ -550,6 +703,7 @@ def run(ctx):
     scalar_check(ctx)
     uncached_check(ctx)
     collections_check(ctx)
+    hashed_check(ctx)
 
 
 def replay(ctx, rp):
